@@ -127,6 +127,7 @@ inductive E where
   | forList (x : Nat) (l : E) (body : E)
   | forGen (x : Nat) (g : Nat) (args : List E) (body : E)
   | brk
+  | brkV (e : E)                            -- `break <e>`: the value is evaluated first, inside any enclosing try
   | cont
   | ret (e : E)
   | try_ (b : E) (cs : List (Option Ty × Nat × E)) (fin : Option E)
